@@ -61,7 +61,7 @@ def tfn_suites(ctx, exe, suites):
     suites: [(name, windows)]; one worker batch and one model batch for all.
     Returns {name: [windows that the real optimize() changed]}"""
     flat = [(name, w) for name, ws in suites for w in ws]
-    raws = vlib.run_impl('peepfn.opt_list', [{'instrs': w} for _, w in flat], timeout=3300)
+    raws = pg.run_chunked('peepfn.opt_list', [{'instrs': w} for _, w in flat], 40000, timeout=3300)
     jobs, its, ok_idx = [], [], []
     for k, ((suite, w), r) in enumerate(zip(flat, raws)):
         if not isinstance(r, dict) or 'in' not in r:
@@ -137,7 +137,7 @@ def exec_suites(ctx, suites, tier):
         for w in ws:
             for name, pre in pre_states_for(w, tier):
                 cases.append({'pre': pre, 'window': w, 'pname': name, 'suite': suite})
-    rs = vlib.run_impl('peepfn.exec_window', [{'pre': c['pre'], 'window': c['window']} for c in cases], timeout=3300)
+    rs = pg.run_chunked('peepfn.exec_window', [{'pre': c['pre'], 'window': c['window']} for c in cases], 8000, timeout=3300)
     keys = {name: set() for name, _ in suites}
     n = {name: 0 for name, _ in suites}
     for c, r in zip(cases, rs):
@@ -218,7 +218,7 @@ def level_suite(ctx, tier):
     progs = level_pool(ctx, tier)
     cases = [{'src': p['src'], 'script': p['script'], 'levels': [0, 1, 2, 3], 'max_ticks': 20000}
              for p in progs]
-    rs = vlib.run_impl('peepfn.level_case', cases, timeout=3300)
+    rs = pg.run_chunked('peepfn.level_case', cases, 128, timeout=3300)
     keys = set()
     for p, r in zip(progs, rs):
         if not isinstance(r, dict) or 'harness' in r or 'exc' in r:
